@@ -1,7 +1,7 @@
 (* C11 -- separate-process mode contains every way a test can die.
    Only statements; every proof is `exact <lemma>` into C11_Words.v / C11_Proofs.v / C11_Loop.v / C11_Compose.v. *)
 From Coq Require Import NArith ZArith List Bool Arith.
-From CppUVerif Require Import gen.Gen_C11 C11_Model C11_Words C11_Proofs C11_Loop C11_Compose C11_Passes.
+From CppUVerif Require Import gen.Gen_C11 C11_Model C11_Words C11_Proofs C11_Loop C11_Compose C11_Passes C11_Env.
 Import ListNotations.
 Local Open Scope N_scope.
 
@@ -244,6 +244,85 @@ Print Assumptions C11_single_pass_embeds.
 Theorem C11_run_meets_spec : forall s, valid_m s = true -> spec_m s (run_m s) = true.
 Proof. exact run_m_meets_spec. Qed.
 Print Assumptions C11_run_meets_spec.
+
+(* --------------------------------------------------------------------------------------------------------------
+   real children waited for through the REAL fork / waitpid implementations under a process-level configuration of the
+   program: SIGCHLD ignored, SA_NOCLDWAIT (with or without a handler), a handler that reaps with waitpid(-1) first, a handler
+   that only counts; other children of the process ending meanwhile; signals interrupting the wait
+   -------------------------------------------------------------------------------------------------------------- *)
+(* the wait loop on ANY list of answers -- any result, any status word, the error answers included: the test has no failure
+   only if the loop met an answer "exited with status 0", behind nothing but interrupted waits within the bound and words of
+   no class; that answer ended the wait *)
+Theorem C11_only_clean_exit_passes : forall ws r,
+  lr_end (parent_loop r ws) <> EndStreamOut -> lr_fails (parent_loop r ws) = [] ->
+  exists pre o post, ws = pre ++ o :: post /\ forallb silent pre = true /\ clean_exit o = true /\
+                     lr_end (parent_loop r ws) = EndReaped /\ lr_calls (parent_loop r ws) = S (length pre).
+Proof. exact only_clean_exit_passes. Qed.
+Print Assumptions C11_only_clean_exit_passes.
+
+(* ... so every answer other than "exited with 0" yields a failure *)
+Theorem C11_every_other_answer_fails : forall ws r,
+  forallb (fun o => negb (clean_exit o)) ws = true -> lr_end (parent_loop r ws) <> EndStreamOut ->
+  lr_fails (parent_loop r ws) <> [].
+Proof. exact every_other_answer_fails. Qed.
+Print Assumptions C11_every_other_answer_fails.
+
+(* the error answer (ECHILD: the child was taken away) behind n tolerated interruptions and any reported stops: one failure per
+   stop and one for the failing wait, n + stops + 1 calls, the loop ends there *)
+Theorem C11_echild_is_a_failure : forall n (stops : list N), (n <= tolerated)%nat -> forallb (fun s => s <? 256) stops = true ->
+  let lr := parent_loop 0 (repeat WEintr n ++ map (fun s => WStat (encode (EvStop s))) stops ++ [WErr]) in
+  lr_fails lr = map (fun _ => FStopped) stops ++ [FWait] /\ lr_calls lr = (n + length stops + 1)%nat /\ lr_end lr = EndWaitErr.
+Proof. exact echild_is_a_failure. Qed.
+Print Assumptions C11_echild_is_a_failure.
+
+(* containment under every configuration: a real child that is to run is recorded as the wait loop records the answers the
+   real wait gives under that configuration; the loop never runs out of answers; failures / waits / reaped are the property's
+   account of them; a child that did not end with exit status 0 has a failure -- whatever the configuration, the siblings, the
+   interruptions and the injected faults; a child the kernel or the handler reaps is never "left behind" *)
+Theorem C11_env_child_contained : forall all_sep run_ign count ig e p inject,
+  env_ok e = true -> prog_ok p = true -> ig && negb run_ign = false ->
+  let lr := parent_loop 0 (map conc (env_stream e p inject)) in
+  run_case all_sep run_ign count {| c_ign := ig; c_test := TEnv e p inject |} = env_item e lr /\
+  forallb sout_ok (env_stream e p inject) = true /\
+  lr_end lr <> EndStreamOut /\
+  expect tolerated (env_stream e p inject) = (length (lr_fails lr), lr_calls lr, reaped_end (lr_end lr)) /\
+  (unclean p = true -> lr_fails lr <> []) /\
+  (auto_reaped (e_chld e) = true -> i_lost (env_item e lr) = false).
+Proof. exact env_child_contained. Qed.
+Print Assumptions C11_env_child_contained.
+
+(* the oracle enforces "never recorded as passed" on whatever the implementation reports *)
+Theorem C11_oracle_never_passed : forall all_sep t it p, item_ok all_sep t it = true ->
+  (exists inject, t = TReal p inject) \/ (exists e inject, t = TEnv e p inject) ->
+  unclean p = true -> i_fails it <> [].
+Proof. exact oracle_never_passed. Qed.
+Print Assumptions C11_oracle_never_passed.
+
+(* SIGCHLD ignored / SA_NOCLDWAIT / reaped by the handler first: the wait fails, and that is a failure of the test (also for a
+   child that ended cleanly); the exact record without injected faults *)
+Theorem C11_auto_reaped_record : forall count e p, prog_ok p = true -> auto_reaped (e_chld e) = true -> (e_eintr e <= tolerated)%nat ->
+  let it := run_env count e p [] in
+  i_fails it = map (fun _ => FStopped) (fst (child_trace p)) ++ [FWait] /\
+  i_calls it = (e_eintr e + length (fst (child_trace p)) + 1)%nat /\ i_lost it = false.
+Proof. exact auto_reaped_record. Qed.
+Print Assumptions C11_auto_reaped_record.
+
+(* other children of the process and a handler that only counts change nothing; the neutral configuration is the plain real child *)
+Theorem C11_env_neutral : forall count c sibs sibs' n p inject,
+  run_env count {| e_chld := c; e_sibs := sibs; e_eintr := n |} p inject =
+    run_env count {| e_chld := c; e_sibs := sibs'; e_eintr := n |} p inject /\
+  run_env count {| e_chld := CHandler; e_sibs := sibs; e_eintr := n |} p inject =
+    run_env count {| e_chld := CDefault; e_sibs := sibs; e_eintr := n |} p inject /\
+  run_env count {| e_chld := CDefault; e_sibs := sibs; e_eintr := 0 |} p inject = run_real count p inject /\
+  expected false (TEnv {| e_chld := CDefault; e_sibs := sibs; e_eintr := 0 |} p inject) = expected false (TReal p inject).
+Proof. exact env_neutral. Qed.
+Print Assumptions C11_env_neutral.
+
+(* a wait wrapper that turns the failing wait (ECHILD) into "exited with status 0" does NOT meet the oracle (witness: SIGCHLD
+   ignored, the child killed by SIGKILL) *)
+Theorem C11_fabricating_wrapper_refuted : ~ fabricating_wrapper_stmt.
+Proof. exact fabricating_wrapper_refuted. Qed.
+Print Assumptions C11_fabricating_wrapper_refuted.
 
 (* --------------------------------------------------------------------------------------------------------------
    The separate-process runner of the model IS the source: GccPlatformSpecificRunTestInASeperateProcess as tools/cxx2gal.py regenerates it from UtestPlatform.cpp on every run (gen/Gen_LoopC11.v: fork(), getFailureCount() and waitpid() take the next value of ghost oracle streams, a waitpid outcome is (result, status, errno); addFailure / kill / _exit are ghost events; the status macros are glibc's, expanded by clang) does, on every stream of outcomes, what the model's parent_loop says: the same number of wait calls, the same failures in the same order (fail_events), one SIGCONT per stop, the retry counter and its bound (gives_up_src: a change of the bound or of the comparison breaks it), the fork-failure and child branches
